@@ -174,7 +174,8 @@ def explore(run, tier):
         if i % 100 == 7:
             cases.append(dict(base, expanded=i % 2, run=[1500, 2600][(i // 100) % 2]))
         if i % 10 == 0:
-            cases.append(dict(base, expanded=i % 2, notrailer=True))
-            cases.append(dict(base, expanded=i % 2, table='IP0072T1'))
-            cases.append(dict(base, expanded=i % 2, cut=rng.randrange(1, 200)))
+            for expanded in (0, 1):
+                cases.append(dict(base, expanded=expanded, notrailer=True))
+                cases.append(dict(base, expanded=expanded, table='IP0072T1'))
+            cases.append(dict(base, expanded=(i // 10) % 2, cut=rng.randrange(1, 200)))
     run.correspond(__name__, cases, use_model=run.use_model, chunk=40)
